@@ -42,7 +42,7 @@ func c08Plan(seed int64, tier string) []core.Case {
 		rng := core.Case{Seed: s}.Rng()
 		c := core.Case{Kind: "conformance", Seed: s, P: map[string]int64{
 			"level": int64(rng.Intn(11) - 1),
-			"term":  int64([]int{0, 0, 0, 1, 2, 3}[rng.Intn(6)]),
+			"term":  int64([]int{0, 0, 0, 1, 2, 3, 4, 5}[rng.Intn(8)]),
 			"hook":  int64(rng.Intn(3)),
 		}}
 		if i%10 == 0 {
@@ -192,7 +192,11 @@ func c08Run(c core.Case) *core.Result {
 		model = append(model, p...)
 	}
 	h := randHeader(rng)
-	termName := []string{"close", "abandon-after-flush-wait", "close-last-write-fails", "close-second-to-last-write-fails"}[term]
+	termName := []string{"close", "abandon-after-flush-wait", "close-last-write-fails", "close-second-to-last-write-fails", "close-last-write-fails-once", "close-second-to-last-write-fails-once"}[term]
+	transient := term >= 4
+	if transient {
+		term -= 2
+	}
 	base := fmt.Sprintf("level=%d term=%s %s", level, termName, h.desc)
 	r.FP = core.Hash(script.String(), script.Total(), base)
 	r.Sample = map[string]any{"script": script.String(), "settings": base}
@@ -212,6 +216,7 @@ func c08Run(c core.Case) *core.Result {
 			if w.FailAt < 1 {
 				w.FailAt = 1
 			}
+			w.FailOnce = transient
 		}
 		var closeErr error
 		closed := false
@@ -332,7 +337,7 @@ func c08Limit(r *core.Result, c core.Case, rng *rand.Rand) *core.Result {
 	}
 	baseLen := pm[0].Len
 	target := oracle.MaxBlockSize - 3 + c.Int("pad")%7 // MaxBlockSize-3 .. +3
-	pad := target - baseLen - 1                            // comment bytes + NUL
+	pad := target - baseLen - 1                        // comment bytes + NUL
 	r.FP = core.Hash("limit", level, target)
 	r.Nontrivial = true
 	r.Sample = map[string]any{"kind": "limit", "level": level, "target_member_len": target, "unpadded_len": baseLen, "comment_len": pad}
